@@ -18,6 +18,8 @@ import (
 )
 
 type Global struct {
+	famCache   map[*ssa.FreeVar]map[*ssa.Function]bool
+	reachCache map[string]bool
 	prog     *ssa.Program
 	pkgs     []*packages.Package
 	cs       *Contracts
